@@ -9,11 +9,40 @@ From Coq Require Import Strings.Byte.
 From WH Require Import lib.Bytes gen.Extracted model.Vaa model.Processor model.ProcSpec model.System
      proofs.VaaProofs proofs.QuorumProofs proofs.ProcessorProofs proofs.ProcC01Proofs proofs.ProcC02Proofs proofs.ProcCleanupProofs
      proofs.SystemProofs proofs.SystemLiveProofs.
-From WH Require proofs.ReobsLoopProofs.
 Import ListNotations.
 Open Scope Z_scope.
 
-Module LP := ReobsLoopProofs.
+(* two facts about the cleanup tick (as in proofs/ReobsLoopProofs.v; restated here so that C02 does not depend on the dispatcher) *)
+Module LP.
+Lemma cleanup_all_lookup st now h : forall l, NoDup (map fst l) ->
+  alookup h (fst (cleanup_all st now l)) =
+  match alookup h l with
+  | None => None
+  | Some e => match cleanup_entry now (in_db_of st e) (match cur st with Some _ => true | None => false end) e with
+              | CKeep e' _ => Some e' | CDelete => None | CPanic => Some e end
+  end.
+Proof.
+  induction l as [|[k e] l IH]; intros ND; cbn [cleanup_all]; [reflexivity|]. cbn [map fst] in ND. inversion ND as [|? ? Hn ND']; subst.
+  pose proof (cleanup_all_keys st now l) as Hk. specialize (IH ND'). destruct (cleanup_all st now l) as [t' o'] eqn:Ect. cbn [fst] in *.
+  assert (Hnt : ~ In k (map fst t')) by (intros X; apply Hn; apply Hk; exact X).
+  cbn [alookup]. destruct (bytes_eqb_spec h k) as [->|Hne].
+  - destruct (cleanup_entry now _ _ e); cbn [fst alookup]; rewrite ?bytes_eqb_refl; [reflexivity|apply alookup_notin; exact Hnt|reflexivity].
+  - destruct (cleanup_entry now _ _ e); cbn [fst alookup]; [|exact IH|]; (destruct (bytes_eqb_spec h k); [contradiction|exact IH]).
+Qed.
+
+Lemma cleanup_keep_cases now indb ck e e' o : cleanup_entry now indb ck e = CKeep e' o ->
+  (e' = e /\ o = []) \/ (e' = set_settled e /\ o = []) \/ (exists ob, our_msg e = Some ob /\ e' = set_retried e now).
+Proof.
+  unfold cleanup_entry. destruct (negb (submitted e) && _ && _ && _); [discriminate|].
+  destruct (negb (settled e) && _); [destruct (_ || _ || _); [intros X; inversion X; subst; right; left; auto|discriminate]|].
+  destruct (submitted e && _); [discriminate|].
+  destruct (negb (submitted e) && ((_ && (proc_own_retry_budget <=? retries e)) || _)); [discriminate|].
+  destruct (negb (submitted e) && _ && _).
+  - destruct (our_msg e) as [ob|] eqn:Em; [|intros X; destruct (negb ck && proc_cleanup_nil_branch_uses_cur); discriminate X].
+    intros X; inversion X; subst. right. right. exists ob. split; reflexivity.
+  - intros X; inversion X; subst. left. auto.
+Qed.
+End LP.
 
 (* "along the whole run from st over ops, P holds of the state and the op handled in it" *)
 Fixpoint always {S X} (stp : S -> X -> S) (P : S -> X -> Prop) (st : S) (ops : list X) : Prop :=
@@ -61,7 +90,7 @@ Qed.
 Lemma keep_same now indb ck e e' o : cleanup_entry now indb ck e = CKeep e' o ->
   gs_snap e' = gs_snap e /\ our_vaa e' = our_vaa e /\ esigs e' = esigs e /\ submitted e' = submitted e.
 Proof.
-  intros Hc. destruct (LP.cleanup_keep_cases _ _ _ _ _ _ Hc) as [[-> _]|[[-> _]|(ob & _ & -> & _)]]; repeat split.
+  intros Hc. destruct (LP.cleanup_keep_cases _ _ _ _ _ _ Hc) as [[-> _]|[[-> _]|(ob & _ & ->)]]; repeat split.
 Qed.
 
 Section Live2.
